@@ -263,8 +263,12 @@ impl Prop for C20 {
                         _ => "0".to_string(),
                     }
                 };
-                let cs = if rng.chance(1, 12) {
-                    if rng.chance(1, 2) { "x".to_string() } else { nidx(rng) }
+                let cs = if rng.chance(1, 8) {
+                    match rng.below(4) {
+                        0 => "x".to_string(),
+                        1 => "0".to_string(), // the first nonce handed out: another session's or an earlier one
+                        _ => nidx(rng),
+                    }
                 } else {
                     "c".to_string()
                 };
@@ -318,7 +322,7 @@ impl Prop for C20 {
                             _ => format!("x509 {} {} n", p, cert),
                         }
                     }
-                    4 => "invalid".to_string(),
+                    4 => (*rng.pick(&["invalid", "invalid issued", "invalid body", "invalid strid"])).to_string(),
                     // replay of an identity token used earlier in this case (same session or not)
                     _ => match earlier_tokens.is_empty() {
                         true => "anon 0".to_string(),
@@ -613,9 +617,27 @@ impl S {
                             },
                         )
                     }
-                    ["invalid"] => {
+                    ["invalid", ..] => {
                         kind = "invalid";
-                        ExtensionObject::from_encodable(ObjectId::ReadRequest_Encoding_DefaultBinary, &anon_body())
+                        match tok.get(1).copied() {
+                            // an IssuedIdentityToken (a token type the server does not support)
+                            Some("issued") => ExtensionObject::from_encodable(ObjectId::IssuedIdentityToken_Encoding_DefaultBinary, &anon_body()),
+                            // a known token type id with a body that does not decode
+                            Some("body") => {
+                                let mut e = ExtensionObject::from_encodable(ObjectId::UserNameIdentityToken_Encoding_DefaultBinary, &anon_body());
+                                if let ExtensionObjectEncoding::ByteString(ref mut b) = e.body {
+                                    *b = ByteString::from(vec![0xffu8, 0xff, 0xff, 0x7f, 1]);
+                                }
+                                e
+                            }
+                            // a string node id as type id
+                            Some("strid") => {
+                                let mut e = ExtensionObject::from_encodable(ObjectId::AnonymousIdentityToken_Encoding_DefaultBinary, &anon_body());
+                                e.node_id = NodeId::new(1, "token");
+                                e
+                            }
+                            _ => ExtensionObject::from_encodable(ObjectId::ReadRequest_Encoding_DefaultBinary, &anon_body()),
+                        }
                     }
                     _ => return ("bad-op".to_string(), Verdict::Ok),
                 };
